@@ -1,5 +1,5 @@
 /* Declaration-only stand-in for GNU libidn's <idna.h>, transcribed from its public
- * documentation, so that partial/idn/*.c can be PARSED (never compiled or linked) here.
+ * documentation, so that the files under partial/idn can be PARSED (never compiled or linked) here.
  * libidn is not installed in this sandbox. */
 #ifndef VERIF_STUB_IDNA_H
 #define VERIF_STUB_IDNA_H
